@@ -23,6 +23,8 @@ def run(ctx: core.Ctx) -> None:
     n = 120 if ctx.quick else 1500
     raws = sc.trace_runs(ctx, sc.gen_configs(ctx.seed + 1, n, 100 if ctx.quick else 400), "C04", want_resid=True, want_rf=False)
     ctx.extra["repo_tests"] = sc.repo_test_traces(ctx, "C04", ["tests/flow/test_reservoir.py", "tests/forecast/test_forecast.py", "tests/test_plots.py"], True)
+    if not ctx.quick:   # the documentation notebooks, cell by cell (those that need the network stop at that cell)
+        ctx.extra["notebooks"] = sc.repo_test_traces(ctx, "C04", sc.NOTEBOOKS, True, module="bbv.drivers.notebooks")
     ctx.extra["worst_backward_error"] = max(r["worst_backward_error"] for r in raws) if raws else None
     ctx.extra["steps_judged"] = sum(max(0, r["levels_logged"] - 1) for r in raws)
     ctx.extra["nonuniform_grid_runs"] = sum(1 for r in raws if r["cfg"]["grid"] != "uniform")
